@@ -134,6 +134,16 @@ def _block(stmts):
                 r = _stmt(st)
                 stmts[i:i + 2] = r if isinstance(r, list) else [r]
                 continue
+        # C16: consecutive guards with the same leaving body: `if a: raise E` / `if b: raise E` is `if a or b: raise E`
+        if isinstance(st, ast.If) and not st.orelse and isinstance(nxt, ast.If) and not nxt.orelse and _leaves(st.body) \
+                and [ast.dump(b_) for b_ in st.body] == [ast.dump(b_) for b_ in nxt.body]:
+            vals = (list(st.test.values) if isinstance(st.test, ast.BoolOp) and isinstance(st.test.op, ast.Or) else [st.test]) + \
+                   (list(nxt.test.values) if isinstance(nxt.test, ast.BoolOp) and isinstance(nxt.test.op, ast.Or) else [nxt.test])
+            new = ast.If(test=ast.BoolOp(op=ast.Or(), values=vals), body=st.body, orelse=[])
+            ast.copy_location(new, st)
+            ast.copy_location(new.test, st.test)
+            stmts[i:i + 2] = [new]
+            continue
         # C14: two returns that differ in one sub-expression: `if c: return f(A)` / `return f(B)` is
         # `t = A if c else B` / `return f(t)` (the inverse of lifting a conditional argument out of a call)
         if isinstance(st, ast.If) and len(st.body) == 1 and isinstance(st.body[0], ast.Return) and st.body[0].value is not None \
@@ -1116,6 +1126,295 @@ def _propagate_aliases(fn, module_names):
     P().visit(fn)
 
 
+# -- C15: pure temporaries written out; parallel assignments of plain values split ------------------------------
+_PURE_CALLS = {'isinstance', 'hasattr', 'callable', 'len'}
+_MUTATORS = {'append', 'extend', 'insert', 'pop', 'remove', 'sort', 'reverse', 'update', 'clear', 'fill', 'setdefault', 'popitem',
+             'resize', 'put', 'itemset', 'seek', 'read', 'readline', 'write', 'close'}
+
+
+def _pure_atom(e):
+    if isinstance(e, (ast.Name, ast.Constant)):
+        return True
+    if isinstance(e, ast.Attribute):
+        return _pure_atom(e.value)
+    if isinstance(e, ast.Subscript):
+        return _pure_atom(e.value) and isinstance(e.slice, (ast.Name, ast.Constant))
+    if isinstance(e, ast.Tuple):
+        return all(_pure_atom(x) for x in e.elts)
+    if isinstance(e, ast.Call):
+        return isinstance(e.func, ast.Name) and e.func.id in _PURE_CALLS and not e.keywords and all(_pure_atom(a) for a in e.args)
+    return False
+
+
+def _pure_test(e):
+    if isinstance(e, ast.Compare):
+        return _pure_atom(e.left) and all(_pure_atom(c) for c in e.comparators)
+    if isinstance(e, ast.BoolOp):
+        return all(_pure_test(v) or _pure_atom(v) for v in e.values)
+    if isinstance(e, ast.UnaryOp) and isinstance(e.op, ast.Not):
+        return _pure_test(e.operand) or _pure_atom(e.operand)
+    return False
+
+
+def _inlinable_value(e):
+    # lookups of an attribute (`a.b.c`) and side-effect-free tests; item lookups and lengths keep their names
+    if isinstance(e, ast.Attribute):
+        return _simple_load(e)
+    if isinstance(e, ast.Subscript) and isinstance(e.value, ast.Attribute) and e.value.attr == 'shape' and _simple_load(e.value) \
+            and isinstance(e.slice, ast.Constant) and type(e.slice.value) is int:
+        return True            # one extent of an array: x.shape[k]
+    if isinstance(e, ast.Call):
+        return isinstance(e.func, ast.Name) and e.func.id in ('isinstance', 'hasattr', 'callable') and _pure_atom(e)
+    return _pure_test(e)
+
+
+def _roots(e):
+    return {n.id for n in ast.walk(e) if isinstance(n, ast.Name)}
+
+
+def _touches(st, roots):
+    """may the statement rebind one of the names or modify what it refers to?"""
+    for n in ast.walk(st):
+        if isinstance(n, ast.Name) and isinstance(n.ctx, (ast.Store, ast.Del)) and n.id in roots:
+            return True
+        if isinstance(n, (ast.Attribute, ast.Subscript)) and isinstance(n.ctx, (ast.Store, ast.Del)):
+            r = n
+            while isinstance(r, (ast.Attribute, ast.Subscript)):
+                r = r.value
+            if isinstance(r, ast.Name) and r.id in roots:
+                return True
+        if isinstance(n, ast.Call) and isinstance(n.func, ast.Attribute) and n.func.attr in _MUTATORS:
+            r = n.func.value
+            while isinstance(r, (ast.Attribute, ast.Subscript)):
+                r = r.value
+            if isinstance(r, ast.Name) and r.id in roots:
+                return True
+    return False
+
+
+def _inline_pure_temps(fn):
+    """`t = E` (t bound once, E a side-effect-free lookup or test whose operands nothing touches before the last use of t,
+    every use of t later in the same block, none inside a nested function): uses of t are E."""
+    changed = True
+    rounds = 0
+    while changed and rounds < 20:
+        changed = False
+        rounds += 1
+        counts = {}
+        for n in ast.walk(fn):
+            if isinstance(n, ast.Name) and isinstance(n.ctx, (ast.Store, ast.Del)):
+                counts[n.id] = counts.get(n.id, 0) + 1
+            elif isinstance(n, (ast.FunctionDef, ast.Lambda)) and n is not fn:
+                for a in n.args.args + n.args.kwonlyargs:
+                    counts[a.arg] = counts.get(a.arg, 0) + 2
+            elif isinstance(n, (ast.Global, ast.Nonlocal)):
+                for nm in n.names:
+                    counts[nm] = counts.get(nm, 0) + 2
+            elif isinstance(n, ast.ExceptHandler) and n.name:
+                counts[n.name] = counts.get(n.name, 0) + 2
+        params = {a.arg for a in fn.args.args + fn.args.kwonlyargs} | ({fn.args.vararg.arg} if fn.args.vararg else set()) | \
+                 ({fn.args.kwarg.arg} if fn.args.kwarg else set())
+        nested_loads = set()
+        for n in ast.walk(fn):
+            if isinstance(n, (ast.FunctionDef, ast.Lambda)) and n is not fn:
+                for m in ast.walk(n):
+                    if isinstance(m, ast.Name) and isinstance(m.ctx, ast.Load):
+                        nested_loads.add(m.id)
+        total_loads = {}
+        for n in ast.walk(fn):
+            if isinstance(n, ast.Name) and isinstance(n.ctx, ast.Load):
+                total_loads[n.id] = total_loads.get(n.id, 0) + 1
+
+        def blocks(node):
+            for fld in ('body', 'orelse', 'finalbody'):
+                b = getattr(node, fld, None)
+                if isinstance(b, list) and b and isinstance(b[0], ast.stmt):
+                    yield b
+                    for st in b:
+                        if not isinstance(st, (ast.FunctionDef, ast.ClassDef)):
+                            for x in blocks(st):
+                                yield x
+            if isinstance(node, ast.Try):
+                for h in node.handlers:
+                    yield h.body
+                    for st in h.body:
+                        for x in blocks(st):
+                            yield x
+        for b in blocks(fn):
+            for i, st in enumerate(b):
+                t = _single_name_assign(st)
+                if not t or counts.get(t) != 1 or t in params or t in nested_loads or not _inlinable_value(st.value):
+                    continue
+                roots = _roots(st.value)
+                if t in roots:
+                    continue
+                # uses: all in later statements of this block, and nothing in between touches the operands
+                later = b[i + 1:]
+                n_later = sum(1 for s_ in later for n in ast.walk(s_) if isinstance(n, ast.Name) and n.id == t and isinstance(n.ctx, ast.Load))
+                if n_later != total_loads.get(t, 0) or n_later == 0:
+                    continue
+                last = max(j for j, s_ in enumerate(later) if any(isinstance(n, ast.Name) and n.id == t for n in ast.walk(s_)))
+                if any(_touches(s_, roots) for s_ in later[:last + 1]):
+                    continue
+                # inside a loop the definition is re-evaluated with the loop's current values: fine, uses follow it
+                for j in range(last + 1):
+                    later[j] = _Subst({t: st.value}).visit(later[j])
+                b[i + 1:] = later
+                del b[i]
+                changed = True
+                break
+            if changed:
+                break
+
+
+def _split_parallel(fn):
+    """`a, b = x, y` with plain names / constants on the right that the targets do not rebind is `a = x; b = y`."""
+    def walk(stmts):
+        out = []
+        for st in stmts:
+            for fld in ('body', 'orelse', 'finalbody'):
+                if hasattr(st, fld) and isinstance(getattr(st, fld), list) and getattr(st, fld) and not isinstance(st, (ast.FunctionDef, ast.ClassDef)):
+                    setattr(st, fld, walk(getattr(st, fld)))
+            if isinstance(st, ast.Try):
+                for h in st.handlers:
+                    h.body = walk(h.body)
+            if isinstance(st, ast.Assign) and len(st.targets) == 1 and isinstance(st.targets[0], ast.Tuple) and isinstance(st.value, ast.Tuple) \
+                    and len(st.targets[0].elts) == len(st.value.elts) and not any(isinstance(x, ast.Starred) for x in st.targets[0].elts + st.value.elts):
+                tg, vs = st.targets[0].elts, st.value.elts
+                stored = {n.id for t_ in tg for n in ast.walk(t_) if isinstance(n, ast.Name) and isinstance(n.ctx, ast.Store)}
+                plain = all(isinstance(v, (ast.Name, ast.Constant)) or (isinstance(v, ast.Attribute) and _simple_load(v)) for v in vs)
+                if plain and all(isinstance(t_, (ast.Name, ast.Attribute)) for t_ in tg) and not (stored & {n.id for v in vs for n in ast.walk(v) if isinstance(n, ast.Name)}) \
+                        and not any(isinstance(t_, ast.Attribute) for t_ in tg) or (plain and all(isinstance(v, (ast.Name, ast.Constant)) for v in vs)
+                                                                                     and not (stored & {v.id for v in vs if isinstance(v, ast.Name)})
+                                                                                     and all(isinstance(t_, (ast.Name, ast.Attribute)) for t_ in tg)):
+                    for k, (t_, v) in enumerate(zip(tg, vs)):
+                        new = ast.Assign(targets=[t_], value=v)
+                        ast.copy_location(new, st)
+                        new.col_offset = getattr(st, 'col_offset', 0) + k
+                        out.append(new)
+                    continue
+            out.append(st)
+        return out
+    fn.body = walk(fn.body)
+
+
+# -- C18: private module constants written out; %-formatting of integers spelled with str.format -------------------
+def _private_constants(tree):
+    """module-level `_NAME = <literal>` bound once and never rebound or modified anywhere in the module"""
+    cand = {}
+    for st in tree.body:
+        if isinstance(st, ast.Assign) and len(st.targets) == 1 and isinstance(st.targets[0], ast.Name) and st.targets[0].id.startswith('_') \
+                and not st.targets[0].id.startswith('__'):
+            try:
+                ast.literal_eval(st.value)
+            except Exception:
+                continue
+            cand[st.targets[0].id] = st
+    if not cand:
+        return {}
+    stores = {}
+    for n in ast.walk(tree):
+        if isinstance(n, ast.Name) and isinstance(n.ctx, (ast.Store, ast.Del)):
+            stores[n.id] = stores.get(n.id, 0) + 1
+        elif isinstance(n, (ast.Global, ast.Nonlocal)):
+            for nm in n.names:
+                stores[nm] = stores.get(nm, 0) + 2
+        elif isinstance(n, ast.arg):
+            stores[n.arg] = stores.get(n.arg, 0) + 2
+    out = {}
+    for nm, st in cand.items():
+        if stores.get(nm) == 1 and not any(_touches(x, {nm}) for x in tree.body if x is not st):
+            out[nm] = st.value
+    return out
+
+
+_PCT = None
+
+
+def _percent_to_format(node, int_names):
+    """`'..%d..' % x` -> `'..{}..'.format(x)` for integer x (`%05d` -> `{:05d}`); None when not of that kind"""
+    import re
+    if not (isinstance(node, ast.BinOp) and isinstance(node.op, ast.Mod) and isinstance(node.left, ast.Constant) and isinstance(node.left.value, str)):
+        return None
+    args = list(node.right.elts) if isinstance(node.right, ast.Tuple) else [node.right]
+    if any(isinstance(a, (ast.Starred, ast.Dict)) for a in args):
+        return None
+    fmt = node.left.value
+    parts = re.split(r'(%%|%[0-9]*d|%.)', fmt)
+    out, k = [], 0
+    for p_ in parts:
+        if p_ == '%%':
+            out.append('%')
+        elif re.fullmatch(r'%[0-9]*d', p_):
+            if k >= len(args) or not _int_expr(args[k], int_names):
+                return None
+            spec = p_[1:-1]
+            out.append('{}' if not spec else '{:%sd}' % spec)
+            k += 1
+        elif p_.startswith('%') and len(p_) == 2:
+            return None
+        else:
+            if '%' in p_:
+                return None
+            out.append(p_.replace('{', '{{').replace('}', '}}'))
+    if k != len(args):
+        return None
+    new = ast.Call(func=ast.Attribute(value=ast.Constant(value=''.join(out)), attr='format', ctx=ast.Load()), args=args, keywords=[])
+    return ast.copy_location(new, node)
+
+
+def _int_expr(e, int_names):
+    if isinstance(e, ast.Constant):
+        return type(e.value) is int
+    if isinstance(e, ast.Name):
+        return e.id in int_names
+    if isinstance(e, ast.BinOp) and isinstance(e.op, (ast.Add, ast.Sub, ast.Mult, ast.FloorDiv, ast.Mod)):
+        return _int_expr(e.left, int_names) and _int_expr(e.right, int_names)
+    if isinstance(e, ast.UnaryOp) and isinstance(e.op, (ast.USub, ast.UAdd)):
+        return _int_expr(e.operand, int_names)
+    if isinstance(e, ast.Call) and isinstance(e.func, ast.Name) and e.func.id in ('int', 'len') and not e.keywords and len(e.args) == 1:
+        return True
+    return False
+
+
+def _int_names(fn):
+    """names every binding of which is a counter: target of a loop / comprehension over range(...), or the index of enumerate(...)"""
+    good, bad = set(), set()
+    params = {a.arg for a in ast.walk(fn) if isinstance(a, ast.arg)}
+
+    def over(target, it):
+        if isinstance(it, ast.Call) and isinstance(it.func, ast.Name):
+            if it.func.id == 'range' and isinstance(target, ast.Name):
+                return {target.id}
+            if it.func.id == 'enumerate' and isinstance(target, ast.Tuple) and target.elts and isinstance(target.elts[0], ast.Name):
+                return {target.elts[0].id}
+        return set()
+    counted = set()
+    for n in ast.walk(fn):
+        if isinstance(n, ast.For):
+            g = over(n.target, n.iter)
+            good |= g
+            counted |= {id(x) for x in ast.walk(n.target) if isinstance(x, ast.Name) and x.id in g}
+        elif isinstance(n, ast.comprehension):
+            g = over(n.target, n.iter)
+            good |= g
+            counted |= {id(x) for x in ast.walk(n.target) if isinstance(x, ast.Name) and x.id in g}
+    for n in ast.walk(fn):
+        if isinstance(n, ast.Name) and isinstance(n.ctx, (ast.Store, ast.Del)) and id(n) not in counted:
+            bad.add(n.id)
+    return good - bad - params
+
+
+class _Percent(ast.NodeTransformer):
+    def __init__(self, int_names):
+        self.int_names = int_names
+
+    def visit_BinOp(self, n):
+        self.generic_visit(n)
+        r = _percent_to_format(n, self.int_names)
+        return r if r is not None else n
+
+
 def canonicalize(tree):
     """In-place canonicalisation of a module (function and method bodies, nested ones included)."""
     helpers = _expr_helpers(tree)
@@ -1153,6 +1452,21 @@ def canonicalize(tree):
     for node in ast.walk(tree):
         if isinstance(node, (ast.FunctionDef, ast.AsyncFunctionDef)):
             _nested_defs_to_lambdas(node)
+    import os as _os
+    consts = _private_constants(tree)
+    for st in tree.body:
+        fns_ = [st] if isinstance(st, ast.FunctionDef) else ([m for m in st.body if isinstance(m, ast.FunctionDef)] if isinstance(st, ast.ClassDef) else [])
+        for f_ in fns_:
+            if consts:
+                local = {n.id for n in ast.walk(f_) if isinstance(n, ast.Name) and isinstance(n.ctx, (ast.Store, ast.Del))} | \
+                        {a.arg for a in ast.walk(f_) if isinstance(a, ast.arg)}
+                env = {k: v for k, v in consts.items() if k not in local}
+                if env:
+                    f_.body = [_Subst(env).visit(b) for b in f_.body]
+            _Percent(_int_names(f_)).visit(f_)
+            _split_parallel(f_)
+            if _os.environ.get('FLOWLINT_INLINE', '1') == '1':
+                _inline_pure_temps(f_)
     _Tests().visit(tree)
     for node in ast.walk(tree):
         if isinstance(node, (ast.FunctionDef, ast.AsyncFunctionDef)):
